@@ -55,6 +55,78 @@ def arms_table(prog, fn):
     return b, out
 
 
+def _f32(e):
+    import struct
+
+    if isinstance(e, tuple) and e[0] == "k" and e[2] == "f32" and isinstance(e[1], int):
+        return struct.unpack("<f", struct.pack("<I", e[1] & 0xFFFFFFFF))[0]
+    return None
+
+
+def _is_byte(e):
+    """A freshly read byte, possibly converted to f32."""
+    if isinstance(e, tuple) and e[0] == "cast" and e[1] == "f32":
+        e = e[2]
+    return isinstance(e, tuple) and any(isinstance(t, tuple) and t[0] == "call" and t[1].endswith("read_le") for t in _walk(e))
+
+
+def _walk(e):
+    from ..sym import walk
+
+    return walk(e)
+
+
+def is_snorm(e):
+    """byte * 2 / 255 - 1 (signed normalised byte) in any of its exactly equal spellings."""
+    if not (isinstance(e, tuple) and e[0] == "bin" and e[1] == "Sub" and _f32(e[3]) == 1.0):
+        return False
+    x = e[2]
+    if not (isinstance(x, tuple) and x[0] == "bin"):
+        return False
+
+    def times2(y):
+        return isinstance(y, tuple) and y[0] == "bin" and y[1] == "Mul" and ((_f32(y[3]) == 2.0 and _is_byte(y[2])) or (_f32(y[2]) == 2.0 and _is_byte(y[3])))
+
+    if x[1] == "Div" and _f32(x[3]) == 255.0 and times2(x[2]):
+        return True
+    if x[1] == "Div" and _f32(x[3]) == 127.5 and _is_byte(x[2]):
+        return True
+    if x[1] == "Mul":
+        for a, b_ in ((x[2], x[3]), (x[3], x[2])):
+            if _f32(b_) == 2.0 and isinstance(a, tuple) and a[0] == "bin" and a[1] == "Div" and _f32(a[3]) == 255.0 and _is_byte(a[2]):
+                return True
+    return False
+
+
+def tangent_decode(rb):
+    """(three signed-normalised components?, handedness rule) of read_tangent, from its Some(..) paths."""
+    from ..sym import Explorer
+
+    xyz_ok, w = True, {}
+    n = 0
+    for p in Explorer(rb, max_paths=400).explore():
+        leaf = p.env.local(0)
+        if not (isinstance(leaf, tuple) and leaf[0] == "agg" and leaf[2].endswith("Option::Some") and leaf[3] and isinstance(leaf[3][0], tuple) and leaf[3][0][0] == "agg" and len(leaf[3][0][3]) == 4):
+            continue
+        n += 1
+        comps = leaf[3][0][3]
+        xyz_ok = xyz_ok and all(is_snorm(c) for c in comps[:3])
+        sign = _f32(comps[3])
+        cond = None
+        for c in p.conds:
+            e, (op, val) = c[0], c[1]
+            v0 = val[0] if isinstance(val, tuple) and val else val
+            if isinstance(e, tuple) and e[0] == "bin" and e[1] in ("Eq", "Ge", "Ne", "Lt"):
+                truth = (op == "eq" and v0 != 0) or (op == "ne" and v0 == 0)
+                if e[1] in ("Ne", "Lt"):
+                    truth = not truth
+                full = (is_snorm(e[2]) and _f32(e[3]) == 1.0) or (_is_byte(e[2]) and isinstance(e[3], tuple) and e[3][0] == "k" and e[3][1] == 255 and e[3][2] != "f32") or (_is_byte(e[2]) and _f32(e[3]) == 255.0)
+                if full:
+                    cond = truth
+        w[sign] = cond
+    return n, xyz_ok, w
+
+
 def run(ctx):
     prog = ctx.prog
     wm = model(ctx)
@@ -159,6 +231,13 @@ def run(ctx):
             divs = [s for _b, _s, s in rb.stmts() if s.get("rv", {}).get("k") == "bin" and s["rv"]["op"] == "Div"]
             consts = {(o.get("k") or {}).get("uneval") or (o.get("k") or {}).get("bits") for s in divs for o in (s["rv"]["b"],)}
             ctx.ob("WIDTH", f"{fn}|decode", len(divs) == 4 and consts <= {"model_file_operations::MAX_BYTE_FLOAT", str(0x437F0000)}, f"{fn} divides {len(divs)} components by {sorted(str(c) for c in consts)}; must be 255.0", rb.file, rb.line)
+        if fn == "read_tangent":
+            try:
+                n_t, xyz_ok, wsel = tangent_decode(rb)
+            except Exception as e:  # noqa: BLE001
+                n_t, xyz_ok, wsel = 0, False, {"error": str(e)[:80]}
+            ctx.ob("WIDTH", f"{fn}|decode", n_t >= 2 and xyz_ok, f"{fn}: the first three components are byte * 2 / 255 - 1 on each of its {n_t} value path(s): {xyz_ok}", rb.file, rb.line)
+            ctx.ob("WIDTH", f"{fn}|handedness", wsel == {1.0: True, -1.0: False}, f"{fn}: fourth component per test outcome {wsel}; must be +1 exactly when the byte is 255 (decoded value == 1.0) and -1 otherwise", rb.file, rb.line)
     ctx.floor("WIDTH", "typed readers", n_w, 8)
     mbf = prog.consts.get("model_file_operations::MAX_BYTE_FLOAT")
     ctx.ob("WIDTH", "MAX_BYTE_FLOAT", bool(mbf) and mbf.get("bits") == str(0x437F0000), f"MAX_BYTE_FLOAT bits = {mbf.get('bits') if mbf else None}; 255.0f32 is {0x437F0000}", "src/model_file_operations.rs")
